@@ -114,3 +114,11 @@ Proof.
   split; [exact ex3_frag2|]. split; [exact ex3_frag1|]. split; [exact ex3_enum|]. split; [exact ex3_nacc|]. split; [exact ex3_nvalid|].
   split; [exact ex3_inj | exact ex3_complete].
 Qed.
+
+Example C05_example_multicross :
+  frag2 ex4_flat = true /\ frag1 ex4_flat = false /\ enumerates_b ex4_flat = true /\ length (accepted_keys ex4_flat) = 36 /\
+  length (all_valid (code_sem ex4_flat)) = 36 /\ check_inj ex4_flat = true /\ check_complete ex4_flat = true.
+Proof.
+  split; [exact ex4_frag2|]. split; [exact ex4_frag1|]. split; [exact ex4_enum|]. split; [exact ex4_nacc|]. split; [exact ex4_nvalid|].
+  split; [exact ex4_inj | exact ex4_complete].
+Qed.
